@@ -27,6 +27,17 @@ static void pre_steps(int code, uint8_t type, uint8_t tos) {
         pre_code = saved;
         return;
     }
+    if (code == 7 || code == 8) {      /* earlier in this session a large property (7: the same one, 8: the other one) was fetched while the interface had a
+                                        * LARGER MTU; the MTU has been lowered since (no Reset): every later response must fit the MTU the interface has now */
+        size_t now = W.iface[0].mtu, big = now * 6 + 100 > 9216 ? 9216 : now * 6 + 100;
+        uint8_t first = code == 7 ? type : (uint8_t)(type == 0x0E ? 0x11 : 0x0E);
+        static uint8_t f[64]; const uint8_t *own = W.iface[0].mac;
+        W.iface[0].mtu = big;
+        fb_qlt(f, own, vf_station[ST_M1], own, vf_station[ST_M1], tos, 0x0208, first, 0);
+        vf_trace_clear(); drv_linux_deliver(0, f, 36);
+        W.iface[0].mtu = now;
+        return;
+    }
     pev d = ev_discover(0, ST_M2, ST_M2, 0x0707, 0x0222); vf_trace_clear(); drv_linux(&d, 0);
     if (code >= 2) { pev q = ev_qlt(tos, ST_M2, ST_M2, 0x0333, type, 0); vf_trace_clear(); drv_linux(&q, 0); }
     if (code == 3) { pev q = ev_query(0, ST_M2, ST_M2, 0x0444); vf_trace_clear(); drv_linux(&q, 0); }
@@ -207,6 +218,14 @@ int main(int argc, char **argv) {
             vf_world_reset(); set_blob(0x0E, 3000); set_blob(0x11, 3000);
             pre_code = 6; pre_steps(6, 0x0E, (uint8_t)tos);
             for (size_t off = P; off < 3000; off += P) request(0x0E, 3000, (uint16_t)off, (uint16_t)(0x0310 + off / P), (uint8_t)tos, 0, NULL, 1);
+            pre_code = 0;
+        }
+        /* the interface's MTU is lowered in the middle of a session */
+        if (A.mtu < 9216) for (int ti = 0; ti < 2; ti++) for (int fi = 0; fi < 2; fi++) for (int tos = 0; tos < 2; tos++) {
+            static const uint8_t ty[2] = {0x0E, 0x11};
+            vf_world_reset(); set_blob(0x0E, 20000); set_blob(0x11, 20000);
+            pre_code = 7 + fi; pre_steps(pre_code, ty[ti], (uint8_t)tos);
+            for (size_t off = 0; off < 20000; off += P) request(ty[ti], 20000, (uint16_t)off, (uint16_t)(0x0410 + off / P), (uint8_t)tos, 0, NULL, 1);
             pre_code = 0;
         }
         /* two stations: M2 is the active mapper (accepted Discover, own sequence numbers), then M1 requests a
